@@ -1848,6 +1848,11 @@ class Interp(seq_detached.DetachedMixin, S.SeqRun):
             # way to learn an auto-incremented id)
             fresh = [o for o in self.live_sorted() if not o.stored and o.mid in self.handles]
             mo = fresh[-1] if fresh else None
+            if newest == 'deleted':
+                # ... or the stored object this session deleted last, its DELETE still pending
+                gone = [o for m, o in sorted(self.view.objs.items()) if o.deleted and m in self.handles
+                        and self.handles[m]._status_ == 'marked_to_delete']
+                mo = gone[-1] if gone else None
         if mo is None:
             return
         h = self.handle_or_poison(mo.mid)
@@ -2111,6 +2116,8 @@ class Interp(seq_detached.DetachedMixin, S.SeqRun):
             self.op_oflush(a, b, c)
         elif name == 'oflush_new':
             self.op_oflush(a, b, c, newest=True)
+        elif name == 'oflush_del':
+            self.op_oflush(a, b, c, newest='deleted')
         elif name == 'seq_in':
             self.op_seq_in(a, b, c)
         elif name == 'new_rawfk':
